@@ -37,6 +37,14 @@ func checkC05(c *core.Ctx) {
 	c05ClauseOrder(c)
 	c.Rule("ORDABS.dependencies-complete", "makeDepGraph, evaluated on one-rule programs with every premise kind (temporal literals with and without operator or interval included), records every dependency: a missing edge leaves two strata unordered and the facts derived then depend on map iteration order (obligation shared with C03)", 1)
 	c.Under("ORDABS.dependencies-complete", []string{rC03Graph}, func() { c03DepGraph(c) })
+	c.Rule("ORDABS.base-fact-order", "the temporal store answers the same whatever the order in which the base facts were added: the interval tree's rotations keep the max-end augmentation at one node over all orderings, and Insert with everything below it, evaluated on every insertion sequence of the small family, answers point and range queries by the set inserted (obligations shared with C13)", 5)
+	tk := newTkit(c, "ORDABS.base-fact-order")
+	c.Under("ORDABS.base-fact-order", []string{rC13Rot, rC13Whole}, func() {
+		c13Rotations(c, tk)
+		c13WholeTree(c, tk)
+	})
+	c.Rule("ORDABS.internal-relations-per-rule", "rewrite.Rewrite gives every multi-premise aggregating rule an internal relation of its own: two rules sharing one would mix their rows in columns ordered by variable-name hash, so that renaming variables or reordering rules changes the aggregate (obligation shared with C02)", 1)
+	c.Under("ORDABS.internal-relations-per-rule", []string{rC02Split}, func() { c02Rewrite(c) })
 }
 
 const (
